@@ -53,6 +53,7 @@ ENGINE_SRC := AsciiFileDensityFunction AsciiFileDensityGridWriter \
 GEN_SRC := CompilerInfo ConfigurationInfo
 
 DETSIM_SRC := sim driver simlibc
+LIBS_erng := -lgsl -lgslcblas
 
 VARIANTS := plain small tiny asan tshim
 
@@ -89,9 +90,9 @@ $(B)/$(1)/libengine.a: $$(ENGINE_OBJ_$(1))
 	@rm -f $$@
 	ar rcs $$@ $$^
 # header-only engines (containers, time line, random generator, restart files)
-$(B)/$(1)/bin/econt: $(B)/$(1)/engines/econt.o $$(DETSIM_OBJ_$(1))
+$(B)/$(1)/bin/econt $(B)/$(1)/bin/etl $(B)/$(1)/bin/erng: $(B)/$(1)/bin/%: $(B)/$(1)/engines/%.o $$(DETSIM_OBJ_$(1))
 	@mkdir -p $$(dir $$@)
-	$(CXX) $$(LDFLAGS_$(1)) -o $$@ $$^ -lpthread
+	$(CXX) $$(LDFLAGS_$(1)) -o $$@ $$^ $$(LIBS_$$*) -lpthread
 # whole-simulation engines
 $(B)/$(1)/bin/%: $(B)/$(1)/engines/%.o $$(DETSIM_OBJ_$(1)) $(B)/$(1)/libengine.a
 	@mkdir -p $$(dir $$@)
